@@ -18,6 +18,7 @@ type Opts struct {
 	RootOnly      bool
 	CheckContents bool // report C11 violations
 	CheckWatches  bool // report C12 violations
+	LongKeys      bool // most keys start with one of a few long stems (hundreds to thousands of bytes)
 	Txns          int  // number of transactions per history
 	MaxOps        int  // max operations per transaction
 }
@@ -51,12 +52,13 @@ type watch struct {
 }
 
 type sim struct {
-	r    *vkit.Run
-	idx  int
-	rng  *rand.Rand
-	o    Opts
-	alph []byte
-	maxL int
+	r     *vkit.Run
+	idx   int
+	rng   *rand.Rand
+	o     Opts
+	alph  []byte
+	maxL  int
+	stems [][]byte
 
 	cur      part.Tree[uint64]
 	curModel map[string]uint64
@@ -122,6 +124,15 @@ func (s *sim) violate(contents bool, key string, f string, a ...any) {
 }
 
 func (s *sim) genKey() []byte {
+	k := s.genShortKey()
+	if len(s.stems) > 0 && s.rng.IntN(10) < 7 && (len(k) == 0 || k[0] != 'x') {
+		// long compressed paths: stem + short key (existing long keys are reused through genShortKey's "existing key" branch)
+		return append(bytes.Clone(s.stems[s.rng.IntN(len(s.stems))]), k...)
+	}
+	return k
+}
+
+func (s *sim) genShortKey() []byte {
 	// mixture: existing key, prefix/extension of existing key, random key
 	if len(s.curModel) > 0 && s.rng.IntN(100) < 55 {
 		keys := sortedEntries(s.curModel)
